@@ -37,7 +37,7 @@ func hostileLines(r *vk.RNG, big bool) []string {
 	lines := []string{
 		"", " ", "\x00", "\xff\xfe\xfd", "plain text line", "{", "}", "{}", "[]", "null", `"str"`, "123", `{"a":`, `{"a":1`, `{"a":1,}`, `{"a" 1}`, `{"a":tru`, `{"a":"\ud800"}`, `{"a":"\u12"}`,
 		`{"n":1e999}`, `{"n":-0}`, `{"n":9223372036854775808}`, `{"n":-9223372036854775809}`, `{"n":1e-999}`, `{"n":NaN}`, `{"n":Infinity}`, `{"n":0x10}`, `{"n":01}`, `{"n":1.}`, `{"n":.5}`, `{"n":--1}`,
-		`{"":"empty key"}`, `{"a":"x","a":"dup"}`, `{"a.b":1,"a_b":2,"a-b":3}`, `{"__error__":"user"}`, `{"msg":"x","app":"y"}`, `{"_entry":5}`, `{"_entry":"e","bad name":"v"}`, `{"_entry":null,"k":{"x":1}}`,
+		"level=error msg==oops status=500\n\"GET /\" took=3ms", " \n=", "a==b \n=c", "k=\"unterminated \n\"x\" y=1", "x=1 =\n=\n =", "a=b\n\"c\"=d e", `{"":"empty key"}`, `{"a":"x","a":"dup"}`, `{"a.b":1,"a_b":2,"a-b":3}`, `{"__error__":"user"}`, `{"msg":"x","app":"y"}`, `{"_entry":5}`, `{"_entry":"e","bad name":"v"}`, `{"_entry":null,"k":{"x":1}}`,
 		`a="`, `=`, `a==b`, "\x00=1", `a=1 a=2`, `a="x\"`, `"a"="b"`, `a=\xff`, `level=info status=1e999 dur=99999999999999h size=9999999999999999999EB addr=999.999.999.999`,
 		`status=0x1p-2 dur=1 size=-1 addr=::ffff:1.2.3.4%eth0`, "status=١٢٣ dur=∞ size=1_000 addr=1.1.1.1.1.1.1", ":::::::", "1.1.1.1.1.1.1.1 ::::1 fe80::1%lo0 ::ffff:10.0.0.1 0.0.0.0",
 		"\x1b[31mred\x1b[0m \x1b[ \x1b \x9b31m", "<_> <a> <b>", "{{ .x }} {{ range }}", "%!s(MISSING) %d %s", strings.Repeat("a b ", 50),
@@ -434,6 +434,7 @@ func runC17(r *vk.Run) {
 		from, to int
 		big      bool
 		bin      string
+		oneCPU   bool // the child runs with GOMAXPROCS=1, as on a one-core VM or under a CPU quota of one
 	}
 	var spans []span
 	workers := r.Workers
@@ -451,7 +452,7 @@ func runC17(r *vk.Run) {
 				bin = raceBin
 			}
 		}
-		spans = append(spans, span{"eval", from, to, false, bin})
+		spans = append(spans, span{phase: "eval", from: from, to: to, bin: bin, oneCPU: len(spans)%4 == 1})
 	}
 	perBig := (bigTotal + workers - 1) / workers
 	for from := 0; from < bigTotal; from += perBig {
@@ -459,7 +460,7 @@ func runC17(r *vk.Run) {
 		if to > bigTotal {
 			to = bigTotal
 		}
-		spans = append(spans, span{"big", from, to, true, exe})
+		spans = append(spans, span{phase: "big", from: from, to: to, big: true, bin: exe})
 	}
 	dir := filepath.Join(vk.Root, "build", "c17")
 	_ = os.RemoveAll(dir)
@@ -480,6 +481,9 @@ func runC17(r *vk.Run) {
 		cmd.Env = append(os.Environ(), "VERIF_C17_CHILD=1", "VERIF_C17_FROM="+strconv.Itoa(from), "VERIF_C17_TO="+strconv.Itoa(to), "VERIF_C17_BIG="+big,
 			"VERIF_C17_BUDGET="+budget.String(), "VERIF_C17_PROGRESS="+progress, "VERIF_C17_OUTCOMES="+outcomes, "VERIF_SEED="+strconv.FormatInt(r.Seed, 10),
 			"GORACE=halt_on_error=1 log_path="+filepath.Join(dir, "race"))
+		if sp.oneCPU {
+			cmd.Env = append(cmd.Env, "GOMAXPROCS=1")
+		}
 		ef, _ := os.Create(stderrPath)
 		cmd.Stderr = ef
 		cmd.Stdout = ef
